@@ -65,6 +65,13 @@ def dedupe_cyc(cyc):
     return out
 
 
+TIE = 1.01e-3      # numpy.around and Python round() break ties differently: corners may differ by one unit
+
+
+def close(p, q):
+    return abs(p[0] - q[0]) <= TIE and abs(p[1] - q[1]) <= TIE
+
+
 def same_cycle(a, b):
     if len(a) != len(b):
         return False
@@ -73,7 +80,7 @@ def same_cycle(a, b):
     n = len(a)
     for seq in (b, b[::-1]):
         for s in range(n):
-            if seq[s] == a[0] and all(seq[(s + k) % n] == a[k] for k in range(n)):
+            if close(seq[s], a[0]) and all(close(seq[(s + k) % n], a[k]) for k in range(n)):
                 return True
     return False
 
@@ -116,12 +123,21 @@ def check_case(p, ctx):
     got = {cid: [(cell.vertices[k].x, cell.vertices[k].y) for k in range(len(cell.vertices))] for cid, cell in C.items()}
     if len(got) != len(exp):
         return ctx.violation("cell-count", p, observed=len(got), expected=len(exp))
-    by_set = {}
+    by_key = {}
     for cid, cyc in got.items():
-        by_set.setdefault(frozenset(cyc), []).append(cid)
+        cx = sum(q[0] for q in cyc) / len(cyc)
+        cy = sum(q[1] for q in cyc) / len(cyc)
+        by_key.setdefault((len(cyc), math.floor(cx * 10), math.floor(cy * 10)), []).append(cid)
     cell_of_site = {}
     for si, cyc in exp:
-        cands = by_set.get(frozenset(cyc), [])
+        cx = sum(q[0] for q in cyc) / len(cyc)
+        cy = sum(q[1] for q in cyc) / len(cyc)
+        cands = []
+        for dx in (-1, 0, 1):
+            for dy in (-1, 0, 1):
+                for cid in by_key.get((len(cyc), math.floor(cx * 10) + dx, math.floor(cy * 10) + dy), []):
+                    if cid not in cands and same_cycle(got[cid], cyc):
+                        cands.append(cid)
         if len(cands) != 1:
             return ctx.violation("region-without-cell", p, observed={"candidates": len(cands)},
                                  expected={"corners": cyc[:6]})
@@ -151,12 +167,18 @@ def check_case(p, ctx):
             if q0 == q1:
                 continue
             ca, cb = C[cell_of_site[a]], C[cell_of_site[b]]
-            va = {(x.x, x.y): x for x in ca.vertices}
-            vb = {(x.x, x.y): x for x in cb.vertices}
-            for q in (q0, q1):
-                if q not in va or q not in vb or va[q] is not vb[q]:
-                    return ctx.violation("vertex-not-shared", p, observed=str(q), expected="same Vertex object in both cells")
-            pe = pair_edge.get(frozenset((va[q0].id, va[q1].id)), [])
+            def find(cell, q):
+                exact = [x for x in cell.vertices if (x.x, x.y) == q]
+                if len(exact) == 1:
+                    return exact[0]
+                hits = sorted((abs(x.x - q[0]) + abs(x.y - q[1]), k, x) for k, x in enumerate(cell.vertices)
+                              if close((x.x, x.y), q))
+                return hits[0][2] if hits else None
+            a0, a1, b0, b1 = find(ca, q0), find(ca, q1), find(cb, q0), find(cb, q1)
+            if a0 is None or a1 is None or a0 is not b0 or a1 is not b1:
+                return ctx.violation("vertex-not-shared", p, observed=str((q0, q1)),
+                                     expected="same Vertex objects in both cells")
+            pe = pair_edge.get(frozenset((a0.id, a1.id)), [])
             if len(pe) != 1:
                 return ctx.violation("edge-not-shared", p, observed=len(pe), expected=1, detail={"corner": [q0, q1]})
             shared += 1
